@@ -137,7 +137,7 @@ def deep_copy(ex, sv):
     if isinstance(sv, SDict):
         return sv.copy()
     if isinstance(sv, SSet):
-        return SSet(sv.arr)
+        return SSet(sv.inc, sv.exc, sv.pred)
     return sv
 
 
@@ -147,10 +147,11 @@ def deep_copy(ex, sv):
 def construct(ex, name, e):
     if name in ('Instance', 'Edge', 'Attribute', 'Triple'):
         if len(e.args) == 1 and isinstance(e.args[0], ast.Starred):
+            # C(*t) for a NamedTuple class C and a 3-tuple t is t itself as a value (a NamedTuple is
+            # a tuple); that t is a 3-tuple is a safety obligation outside comprehensions (T10 inside)
             v = ex.evv(e.args[0].value)
-            seq = seq_term(ex, V(v), e)
-            ex.safe(z3.Length(seq) == 3, 'TypeError', 'triple arity', e)
-            return V(VTuple(seq))     # a NamedTuple is a tuple
+            ex.safe(z3.And(is_tuple(v), z3.Length(get_items(v)) == 3), 'TypeError', 'triple arity', e)
+            return V(v)
         args, _ = args_of(ex, e)
         return V(vtuple([as_val(a) for a in args]))
     if name == 'Push':
@@ -300,19 +301,20 @@ def bi_tuple(ex, e):
 
 
 def set_of_seq_term(seq):
-    k = fresh('k', Val)
-    return z3.Lambda([k], z3.Contains(seq, z3.Unit(k)))
+    return seq
 
 
 def bi_set(ex, e):
     if not e.args:
-        return SSet(vl.empty_set())
+        return SSet(vl.empty_seq())
     a = ex.ev(e.args[0])
     if isinstance(a, SSet):
-        return SSet(a.arr)
+        return SSet(a.inc, a.exc, a.pred)
     if isinstance(a, SDict):
-        return SSet(a.dom)
-    return SSet(set_of_seq_term(seq_term(ex, a, e)))
+        if a.keys is None:
+            raise Unsupported('set() of an unordered dict')
+        return SSet(a.keys)
+    return SSet(seq_term(ex, a, e))
 
 
 def bi_dict(ex, e):
@@ -413,11 +415,11 @@ def bi_sorted(ex, e):
     a = ex.ev(e.args[0])
     kw = {k.arg: ex.ev(k.value) for k in e.keywords}
     if isinstance(a, SSet):
-        # sorted(set): order fixed by the elements (used for determinism only)
-        f = z3.Function('sorted_set', SetVal, SeqVal)
-        r = f(a.arr)
+        # sorted(set): a sequence with the same members whose order is a function of the
+        # *members* only -- modelled by a fresh sequence with the same membership
+        r = fresh('sorted_set', SeqVal)
         k = fresh('k', Val)
-        ex.assume(z3.ForAll([k], z3.Contains(r, z3.Unit(k)) == z3.Select(a.arr, k)))
+        ex.assume(z3.ForAll([k], z3.Contains(r, z3.Unit(k)) == a.mem(k)))
         return V(VList(r))
     seq = seq_term(ex, a, e)
     keyf = kw.get('key')
@@ -626,19 +628,37 @@ def bi_set_of_seq(ex, e):
 
 def bi_set_add(ex, e):
     s = ex.ev(e.args[0])
-    return SSet(z3.Store(s.arr, ex.evv(e.args[1]), True))
+    return s.added(ex.evv(e.args[1]))
 
 
 def bi_set_union(ex, e):
     a, b = ex.ev(e.args[0]), ex.ev(e.args[1])
-    k = fresh('k', Val)
-    return SSet(z3.Lambda([k], z3.Or(z3.Select(a.arr, k), z3.Select(b.arr, k))))
+    return a.union(b)
+
+
+def bi_set_where(ex, e):
+    """set_where(lambda x: P): the set given by a membership predicate (specifications)"""
+    lam = e.args[0]
+    name = lam.args.args[0].arg
+    env0 = dict(ex.env)
+    ghost0 = dict(ex.ghost)
+
+    def pred(k):
+        from .symex import Exec
+        sub = Exec(ex.eng, ex.module, None, spec_mode=True)
+        sub.fname = ex.fname
+        sub.env = dict(env0)
+        sub.ghost = dict(ghost0)
+        sub.old_env = getattr(ex, 'old_env', {})
+        sub.env[name] = V(k)
+        return as_bool(sub.ev(lam.body))
+    return SSet(pred=pred)
 
 
 def bi_subset(ex, e):
     a, b = ex.ev(e.args[0]), ex.ev(e.args[1])
     k = fresh('k', Val)
-    return mk_bool(z3.ForAll([k], z3.Implies(z3.Select(a.arr, k), z3.Select(b.arr, k))))
+    return mk_bool(z3.ForAll([k], z3.Implies(a.mem(k), b.mem(k))))
 
 
 def bi_dict_has(ex, e):
@@ -858,44 +878,32 @@ def comprehension(ex, e, kind):
         raise Unsupported('comprehension over a set')
     seq = seq_term(ex, it, e)
     elt = e.elt
-    bound = set(n.id for n in ast.walk(gen.target) if isinstance(n, ast.Name))
-    free = []
-    for node in [elt] + gen.ifs:
-        for n in ast.walk(node):
-            if isinstance(n, ast.Name) and n.id not in bound and n.id not in free and (n.id in ex.env or n.id in ex.ghost):
-                free.append(n.id)
-    caps = []     # (name, sv, [z3 terms])
-    for nm in free:
-        sv = ex.env.get(nm, ex.ghost.get(nm))
-        caps.append((nm, sv, flatten(sv)))
+    # identity map  [C(*t) for t in xs] / [t for t in xs]  is xs itself
+    if not gen.ifs and isinstance(gen.target, ast.Name):
+        inner = elt
+        if isinstance(inner, ast.Call) and isinstance(inner.func, ast.Name) and inner.func.id in ('Instance', 'Edge', 'Attribute', 'Triple') \
+                and len(inner.args) == 1 and isinstance(inner.args[0], ast.Starred):
+            inner = inner.args[0].value
+        if isinstance(inner, ast.Name) and inner.id == gen.target.id:
+            return seq
     idx = next(_cnt)
-    flat = [t for _, _, ts in caps for t in ts]
-    psorts = [SeqVal] + [t.sort() for t in flat]
-    rsort = SeqVal if kind == 'list' else SetVal
-    f = z3.RecFunction('comp%d_%s' % (idx, ex.fname.replace('.', '_').replace(':', '_')), *(psorts + [rsort]))
+    f = z3.RecFunction('comp%d_%s' % (idx, ex.fname.replace('.', '_').replace(':', '_')), SeqVal, SeqVal)
     q = z3.Const('cq%d' % idx, SeqVal)
-    pconsts = [z3.Const('cp%d_%d' % (idx, j), t.sort()) for j, t in enumerate(flat)]
+    pconsts = []
+    flat = []
     sub = Exec(ex.eng, ex.module, None, spec_mode=True)
     sub.fname = ex.fname
-    sub.env = {}
-    # names that are not captured values (functions, classes) resolve globally
-    for k_, v_ in ex.env.items():
-        if k_ not in free:
-            sub.env[k_] = v_
-    j = 0
-    for nm, sv, ts in caps:
-        sub.env[nm] = unflatten(sv, pconsts[j:j + len(ts)])
-        j += len(ts)
+    # captured values are constants of the current path; the definition may mention them
+    sub.env = dict(ex.env)
+    sub.ghost = dict(ex.ghost)
+    sub.old_env = getattr(ex, 'old_env', {})
     n = z3.Length(q)
     last = q[n - 1]
     sub.bind_target(gen.target, V(last), e)
     cond = z3.And(*[as_bool(sub.ev(c)) for c in gen.ifs]) if gen.ifs else z3.BoolVal(True)
     el = as_val(sub.ev(elt))
     init = f(z3.SubSeq(q, 0, n - 1), *pconsts)
-    if kind == 'list':
-        body = z3.If(n == 0, z3.Empty(SeqVal), z3.If(cond, z3.Concat(init, z3.Unit(el)), init))
-    else:
-        body = z3.If(n == 0, vl.empty_set(), z3.If(cond, z3.Store(init, el, True), init))
+    body = z3.If(n == 0, z3.Empty(SeqVal), z3.If(cond, z3.Concat(init, z3.Unit(el)), init))
     z3.RecAddDefinition(f, [q] + pconsts, body)
     return f(seq, *flat)
 
@@ -908,7 +916,7 @@ def flatten(sv):
     if isinstance(sv, V):
         return [sv.t]
     if isinstance(sv, SSet):
-        return [sv.arr]
+        return [sv.inc] + ([sv.exc] if sv.exc is not None else [])
     if isinstance(sv, SModel):
         return [sv.m]
     if isinstance(sv, SDict):
@@ -927,7 +935,7 @@ def unflatten(sv, consts):
     if isinstance(sv, V):
         return V(consts[0])
     if isinstance(sv, SSet):
-        return SSet(consts[0])
+        return SSet(consts[0], consts[1] if sv.exc is not None else None)
     if isinstance(sv, SModel):
         return SModel(consts[0])
     if isinstance(sv, SDict):
